@@ -9,6 +9,7 @@ import (
 	"fmt"
 	"strings"
 	"sync"
+	"sync/atomic"
 	"time"
 
 	"github.com/pion/interceptor"
@@ -205,6 +206,12 @@ type Peer struct {
 	holdOffers bool
 	held       []vclient.Msg
 
+	// AnswerDelay makes this peer a slow answerer: it waits that long before it answers an
+	// offer (and handles nothing else meanwhile), so that the server's next push finds its
+	// previous offer still outstanding.
+	AnswerDelay time.Duration
+	inHandle    atomic.Int32
+
 	mu    sync.Mutex
 	ups   map[string]*Up
 	downs map[string]*Down
@@ -262,7 +269,9 @@ func (p *Peer) loop() {
 	for {
 		select {
 		case e := <-p.queue:
+			p.inHandle.Add(1)
 			p.handle(e)
+			p.inHandle.Add(-1)
 		case <-p.done:
 			return
 		}
@@ -442,7 +451,15 @@ func (p *Peer) gotOffer(m vclient.Msg) {
 	case <-gather:
 	case <-time.After(10 * time.Second):
 	}
+	if p.AnswerDelay > 0 {
+		time.Sleep(p.AnswerDelay)
+	}
 	p.C.Send(vclient.Msg{"type": "answer", "id": id, "sdp": pc.LocalDescription().SDP})
+}
+
+// Busy says whether the peer still has signalling messages to handle (or is handling one).
+func (p *Peer) Busy() bool {
+	return p.inHandle.Load() > 0 || len(p.queue) > 0
 }
 
 // OfferSDP builds a sendonly audio+video offer with all candidates gathered (for WHIP).
